@@ -32,6 +32,7 @@ type GenOpts struct {
 	CppIncludes            bool
 	SameBase               bool // two files with the same base name in different directories
 	ExtraNS                bool // namespaces for other languages / '*'
+	DupNS                  bool // with ExtraNS: a language declared more than once (the AST keeps every line; only front-end checks use it)
 	NoGoNS                 bool // some files without a go namespace
 	OnlyWireable           bool // restrict to shapes the value generator and codecs handle (always true today)
 	HardLiterals           bool // string literals with both quotes, backslashes, '&', '<', '#', unicode
@@ -85,7 +86,8 @@ var stressTypeWords = []string{"user_info", "HTTPReq", "url_map", "item2d", "Api
 var collideTypeWords = []string{"user_info", "UserInfo", "User_Info", "Item_", "item", "ITEM", "get_args", "put_result", "New_thing", "NewThing", "call_Args", "foo_Result", "Error", "String_", "ReadReq", "write_out"}
 var fieldWords = []string{"id", "name", "count", "flag", "data", "items", "tags", "extra", "left", "right", "value", "kind", "ts", "score", "owner", "parent", "attrs", "body", "code", "ratio"}
 var stressFieldWords = []string{"user_id", "userName", "URL", "http_code", "x1", "a_b_c", "Id", "uuid", "json_body", "ip_addr", "TLS", "trail_", "Mixed_Case_name"}
-var collideFieldWords = []string{"user_id", "userId", "UserID", "User_Id", "Name", "NAME", "name_", "get_name", "GetName", "is_set_name", "read", "write", "string", "error", "get_x", "is_set_x", "deep_equal", "type", "func", "range", "p", "err", "ctx", "result", "args", "success", "field_mask", "default"}
+var collideFieldWords = []string{"user_id", "userId", "UserID", "User_Id", "Name", "NAME", "name_", "get_name", "GetName", "is_set_name", "read", "write", "string", "error", "get_x", "is_set_x", "deep_equal", "type", "func", "range", "p", "err", "ctx", "result", "args", "success", "field_mask", "default",
+	"Type", "Range", "Map", "Default", "Func", "Select", "Go", "Var", "Chan", "Interface", "Package", "Return"} // Go keywords once the first letter is lowered (argument names)
 var funcWords = []string{"get", "put", "list_all", "ping", "query", "update", "remove", "echo", "Scan", "fetchMany", "do_it", "run2"}
 var collideFuncWords = []string{"get_item", "getItem", "GetItem", "Ping", "PING", "process", "send", "recv", "close", "read", "write", "string", "type", "client", "Get_args"}
 var enumWords = []string{"Color", "Mode", "State", "Level", "kind_e", "Op", "Phase"}
@@ -197,7 +199,8 @@ func (g *gen) literalText(ann bool) string {
 // the other quote kind), HTML entities, '#', ';', '&'. The text never contains over-escaped quotes of
 // both kinds (no source text can produce that).
 func (g *gen) composedLiteral() string {
-	atoms := []string{"a", "Z", "0", " ", `"`, `'`, "&", "<", ">", "#", ";", "\\\\", "\\t", "\\n", "&amp;", "&#34;", "&quot;", "&lt;", "&#39;", "##", "%", "=", ",", "(", ")", "é", "/", "//", "/*", "*/", "##34;", "#OUTQUOTES", "&#x26;"}
+	atoms := []string{"a", "Z", "0", " ", `"`, `'`, "&", "<", ">", "#", ";", "\\\\", "\\t", "\\n", "&amp;", "&#34;", "&quot;", "&lt;", "&#39;", "##", "%", "=", ",", "(", ")", "é", "/", "//", "/*", "*/", "##34;", "#OUTQUOTES", "&#x26;",
+		"\\\\\"", "\\\\'", "\\\\\\\\\""} // a quote after one / two backslash pairs: written "\\\"" in its own quote kind
 	over := ""
 	if g.rng.Chance(1, 4) {
 		over = []string{"\\\"", "\\'"}[g.rng.Intn(2)]
@@ -1020,6 +1023,19 @@ func Generate(rng *vlib.Rng, o GenOpts) *Program {
 			}
 			if rng.Chance(1, 4) {
 				f.Namespaces = append(f.Namespaces, &Namespace{Lang: "py", Name: "py_" + f.Prefix()})
+			}
+			if o.DupNS && rng.Chance(1, 3) {
+				// a second declaration for a language that already has one (never go: the Go package stays what the model says)
+				var again []*Namespace
+				for _, ns := range f.Namespaces {
+					if ns.Lang != "go" && rng.Bool() {
+						again = append(again, &Namespace{Lang: ns.Lang, Name: ns.Name + ".again", Ann: g.anns("ns")})
+					}
+				}
+				if len(again) == 0 {
+					again = []*Namespace{{Lang: "rs", Name: "one_" + f.Prefix()}, {Lang: "rs", Name: "two_" + f.Prefix(), Ann: g.anns("ns")}}
+				}
+				f.Namespaces = append(f.Namespaces, again...)
 			}
 		}
 		// names of included files' prefixes must not be shadowed... they may: not generated here
